@@ -141,7 +141,9 @@ func genLimiter(r *rand.Rand, n int, tier string, emit func(string) string) {
 			emit(fmt.Sprintf("limiter t %d", now))
 			k := pick(r, int64(1), 1, 1, 2, 3, pp, pp+1, 2*pp, 3*pp+1, int64(r.Intn(50)), 0)
 			var mw int64
-			switch r.Intn(8) {
+			switch r.Intn(9) {
+			case 8:
+				mw = -2 - r.Int63n(unit) // a spent time budget (time.Until(deadline) after the deadline): negative, and not the "no limit" value
 			case 0, 1:
 				mw = -1
 			case 2, 3:
